@@ -573,6 +573,11 @@ func (x *cellAll) visit(d *cellDeps, v ssa.Value) {
 		}
 		return
 	}
+	if isLocalMem(v) {
+		for _, sv := range x.storedInto(v) {
+			x.visit(d, sv)
+		}
+	}
 	if in, ok := v.(ssa.Instruction); ok {
 		for _, op := range in.Operands(nil) {
 			if op != nil && *op != nil {
